@@ -63,3 +63,9 @@ Definition hand_prog_orig : list func :=
 
 Definition hand_sites : list (list nat) := map func_sites hand_prog.
 Definition hand_sites_orig : list (list nat) := map func_sites hand_prog_orig.
+
+(* the shared-memory operation behind every program counter of the machines of WGModel.v;
+   WGProofs.hand_prog_sites / hand_prog_orig_sites check these tables against the listing and
+   against WGModel.wg_site / wgo_site *)
+Definition hand_site_ops : list (nat * list op) := flat_map func_site_ops hand_prog.
+Definition hand_site_ops_orig : list (nat * list op) := flat_map func_site_ops hand_prog_orig.
